@@ -129,6 +129,7 @@ func ruleCustomMessage(r *Run) {
 	nRelay, nRefuse := 0, 0
 	for pi := range paths {
 		path := &paths[pi]
+		r.at(path)
 		for i, ev := range path.Events {
 			if r.isRelay(ev) {
 				nRelay++
@@ -206,6 +207,7 @@ func ruleLatencyStart(r *Run) {
 	n := 0
 	for pi := range paths {
 		path := &paths[pi]
+		r.at(path)
 		i := idxOfCall(path, start, 0)
 		if i < 0 {
 			continue
@@ -265,6 +267,7 @@ func ruleEntityActions(r *Run) {
 	nSet, nStale := 0, 0
 	for pi := range paths {
 		path := &paths[pi]
+		r.at(path)
 		iGet := idxOfCall(path, get, 0)
 		iSet := idxOfCall(path, set, 0)
 		if iGet < 0 {
@@ -323,6 +326,7 @@ func ruleEntityActions(r *Run) {
 	// state keying
 	if sf := r.P.Funcs[set]; sf != nil {
 		for pi, path := range r.Paths(sf) {
+			r.at(&path)
 			_ = pi
 			var leafOK bool
 			for _, op := range r.mapOps(sf, &path) {
@@ -360,6 +364,7 @@ func ruleEntityActions(r *Run) {
 	if gf := r.P.Funcs[get]; gf != nil {
 		r.Analysed(gf, 1)
 		for _, path := range r.Paths(gf) {
+			r.at(&path)
 			ret := r.retCanon(gf, &path)
 			g := r.guardMap(&path)
 			if g["maplookup:recv.entityActions[param:#0]"] == "hit" {
@@ -370,6 +375,7 @@ func ruleEntityActions(r *Run) {
 	if rm := r.modelFunc("modules/vikja.(*State).RemoveEntityActions"); rm != nil {
 		r.Analysed(rm, 1)
 		for _, path := range r.Paths(rm) {
+			r.at(&path)
 			ops := r.mapOps(rm, &path)
 			r.CheckT("S-Actions", rm.Name+":removes", len(ops) == 1 && ops[0].Kind == "delete" && ops[0].Map == "recv.entityActions" && ops[0].Key == "param:#0", rm.Body.Pos(), &path, "removing an entity's actions deletes its whole entry")
 		}
@@ -381,6 +387,7 @@ func ruleEntityActions(r *Run) {
 	if sf := r.modelFunc("modules/odal.(*State).SetAssetInstance"); sf != nil {
 		r.Analysed(sf, 1)
 		for _, path := range r.Paths(sf) {
+			r.at(&path)
 			okW := false
 			for _, op := range r.mapOps(sf, &path) {
 				if op.Kind == "write" && op.Depth == 1 && op.Map == "recv.assetInstances" {
@@ -397,6 +404,7 @@ func ruleEntityActions(r *Run) {
 	if rm := r.modelFunc("modules/odal.(*State).RemoveAssetInstance"); rm != nil {
 		r.Analysed(rm, 1)
 		for _, path := range r.Paths(rm) {
+			r.at(&path)
 			ops := r.mapOps(rm, &path)
 			r.CheckT("S-Assets", rm.Name+":removes", len(ops) == 1 && ops[0].Kind == "delete" && ops[0].Map == "recv.assetInstances" && ops[0].Key == "param:#0", rm.Body.Pos(), &path, "removing an entity's asset deletes its entry")
 		}
@@ -407,6 +415,7 @@ func ruleEntityActions(r *Run) {
 	if af := r.modelFunc("modules/odal.(*Module).handleAssetInstanceAdd"); af != nil {
 		seta := r.fn(repoMod+"/modules/odal", "State", "SetAssetInstance")
 		for _, path := range r.Paths(af) {
+			r.at(&path)
 			i := idxOfCall(&path, seta, 0)
 			if i < 0 {
 				continue
@@ -464,6 +473,7 @@ func ruleSnapshot(r *Run) {
 	n := 0
 	for pi := range paths {
 		path := &paths[pi]
+		r.at(path)
 		for i, ev := range path.Events {
 			if !r.isSendCall(ev) {
 				continue
@@ -514,6 +524,7 @@ func ruleSnapshot(r *Run) {
 		param := "#0"
 		iter := 0
 		for _, path := range r.Paths(sf) {
+			r.at(&path)
 			r.loopsComplete("C7", sf, &path)
 			for _, op := range r.mapOps(sf, &path) {
 				iter++
@@ -529,8 +540,9 @@ func ruleSnapshot(r *Run) {
 	if tf := r.modelFunc("models.(*Entity).ToProtobuf"); tf != nil {
 		r.Analysed(tf, 1)
 		for _, path := range r.Paths(tf) {
+			r.at(&path)
 			for _, ev := range path.Events {
-				if ev.Kind != EvReturn {
+				if ev.Kind != EvReturn || ev.Depth != 0 {
 					continue
 				}
 				lit := r.P.compositeOf(tf, ev.Results[0])
@@ -550,8 +562,9 @@ func ruleSnapshot(r *Run) {
 	if pf := r.modelFunc("models.Pose.ToProtobuf"); pf != nil {
 		r.Analysed(pf, 1)
 		for _, path := range r.Paths(pf) {
+			r.at(&path)
 			for _, ev := range path.Events {
-				if ev.Kind != EvReturn {
+				if ev.Kind != EvReturn || ev.Depth != 0 {
 					continue
 				}
 				lit := r.P.compositeOf(pf, ev.Results[0])
@@ -572,6 +585,7 @@ func ruleSnapshot(r *Run) {
 	// entity-add relay and pose relay
 	for _, h := range m.Handlers {
 		for _, path := range r.Paths(h.Fn) {
+			r.at(&path)
 			for _, ev := range path.Events {
 				if !r.isRelay(ev) {
 					continue
@@ -600,6 +614,7 @@ func ruleSnapshot(r *Run) {
 		}
 		nSet := 0
 		for _, path := range r.Paths(h.Fn) {
+			r.at(&path)
 			i := idxOfCall(&path, setPose, 0)
 			if i < 0 {
 				continue
@@ -630,6 +645,7 @@ func ruleSnapshot(r *Run) {
 		}
 		r.Analysed(jf, 1)
 		for _, path := range r.Paths(jf) {
+			r.at(&path)
 			sent := 0
 			for _, ev := range path.Events {
 				if r.isSendCall(ev) {
@@ -695,6 +711,7 @@ func ruleModuleInit(r *Run) {
 		created, reused := 0, 0
 		for pi := range paths {
 			path := &paths[pi]
+			r.at(path)
 			assigned := map[string]string{}
 			stateWrites := 0
 			lookup := ""
@@ -724,8 +741,14 @@ func ruleModuleInit(r *Run) {
 			}
 			r.CheckT("J3", fn.Name+":rebind", assigned["recv.currentSession"] == ps && assigned["recv.currentParticipant"] == pp, fn.Body.Pos(), path,
 				"Init binds the module to the session and participant it is given (session=%q participant=%q)", assigned["recv.currentSession"], assigned["recv.currentParticipant"])
-			okState := strings.HasPrefix(assigned["recv.state"], "local:") && strings.Contains(assigned["recv.state"], ".(") || strings.Contains(assigned["recv.state"], "call:Session.ModuleState(")
-			r.CheckT("J3", fn.Name+":state-from-session", okState, fn.Body.Pos(), path, "the module's state is the one registered in the session under the module's name (%q)", assigned["recv.state"])
+			st := assigned["recv.state"]
+			okState := strings.Contains(st, "call:Session.ModuleState(")
+			if !okState && iSet >= 0 && len(path.Events[iSet].Call.Args) == 2 {
+				// creating path: the state bound is the very object just registered in the session
+				reg := r.P.Canon(fn, path.Events[iSet].Call.Args[1])
+				okState = reg != "" && strings.HasPrefix(st, reg)
+			}
+			r.CheckT("J3", fn.Name+":state-from-session", okState, fn.Body.Pos(), path, "the module's state is the one registered in the session under the module's name (%q)", st)
 			iGet := idxOfCall(path, getState, 0)
 			if iGet >= 0 {
 				gev := path.Events[iGet]
